@@ -83,6 +83,16 @@ def _f10(cex):
         cex.get("multiframe_not_accumulatively_monotonic") is True
 
 
+@matcher("k3_event_source_examines_offset_L")
+def _k3(cex):
+    return cex.get("kind") == "event_source_ne_fifo"
+
+
+@matcher("k5_npedf_never_releasing_task")
+def _k5b(cex):
+    return cex.get("kind") == "max_npedf_ne_fifo" and cex.get("some_task_never_releases") is True
+
+
 def classify(pid, cexs):
     """returns (known, new): known = list of (finding, first matching cex) (one per
     finding), new = list of counterexamples no known finding accepts."""
